@@ -61,6 +61,8 @@ func RunCase(c *world.Case, o RunOpts) *world.Outcome {
 		o.Binary = filepath.Join(WorkDir, "bin", "world.test")
 		if c.Config.Race {
 			o.Binary = filepath.Join(WorkDir, "bin", "world.race.test")
+		} else if c.Config.Cgo {
+			o.Binary = filepath.Join(WorkDir, "bin", "world.cgo.test")
 		}
 	}
 	if o.Timeout == 0 {
